@@ -1,0 +1,30 @@
+//go:build verif
+
+package replayfilter
+
+// VerifCheck walks the filter under its own lock and reports its size and
+// whether the map and the fifo describe the same set.  Verification hook
+// (build tag verif); not part of the package API.
+func (f *ReplayFilter) VerifCheck() (mapLen, fifoLen int, bijection, monotone bool) {
+	f.Lock()
+	defer f.Unlock()
+
+	mapLen, fifoLen = len(f.filter), f.fifo.Len()
+	bijection, monotone = mapLen == fifoLen, true
+	var prev *entry
+	for e := f.fifo.Front(); e != nil; e = e.Next() {
+		ent, ok := e.Value.(*entry)
+		if !ok || ent == nil || ent.element != e || f.filter[ent.digest] != ent {
+			bijection = false
+			continue
+		}
+		if prev != nil && ent.firstSeen.Before(prev.firstSeen) {
+			monotone = false
+		}
+		prev = ent
+	}
+	return
+}
+
+// VerifMaxSize is the filter's capacity.
+const VerifMaxSize = maxFilterSize
